@@ -1,11 +1,88 @@
-import MpsVerif.Model.Pipeline
+import MpsVerif.Proofs.PipelineNext
 /-!
-# C03 — stream pipelines equal their sequential meaning (first slice; see below for the full list)
+# C03 — stream pipelines equal their sequential meaning
+
+Model: `Model/Pipeline.lean` (`sem`/`semAll`: terminated-stream list meaning; `feed`/`flush`: the
+generator bodies; `next`/`takeK`: the generator protocol over a source with a pull counter, eager
+`buffer`/`parmap` stages scheduled by an arbitrary oracle).  Everything below is for **every**
+program `ops : List Op` (operators carry arbitrary functions `Val → Res`, arbitrary sizes and
+selectors), every finite input `vals` with or without a terminal source error `err`, every oracle
+`orc`, and every consumption depth `k`.
 -/
 namespace Pipeline
 
-/-- building a pipeline pulls nothing: the state built for any program over any source has pull
-    counter 0, the source untouched, and every stage in its initial state -/
+/-- Consuming `k` items from the pipeline built from `ops` over the source `(vals, err)` — by the
+    pull machine, i.e. the generator code — yields exactly the first `k` values of the sequential
+    meaning `semAll ops`, and, when `k` exceeds their number, its ending (clean end or the error);
+    for all sufficiently large recursion budgets (`fuel` is not part of the modelled code). -/
+theorem C03_pull_eq_sem (ops : List Op) (vals : List Val) (err : Option Err) (orc : List Bool) (k : Nat) :
+    ∃ F, ∀ fuel, F ≤ fuel →
+      let r := takeK fuel k (build ops) (World.init vals err orc)
+      (r.1, r.2.1) = expectK k (semAll ops ⟨vals, err⟩) := by
+  obtain ⟨F, hF⟩ := takeK_total k (build ops) (World.init vals err orc)
+  refine ⟨F, fun fuel hle => ?_⟩
+  have := takeK_spec k fuel (build ops) (World.init vals err orc) (hF fuel hle)
+  rw [denote_build] at this
+  exact this
+
+/-- … and no budget gives a different answer: whenever the run does not stop on `Resp.fuel`, it
+    has produced the sequential meaning. -/
+theorem C03_pull_fuel_independent (ops : List Op) (vals : List Val) (err : Option Err) (orc : List Bool)
+    (k fuel : Nat) :
+    let r := takeK fuel k (build ops) (World.init vals err orc)
+    r.2.1 ≠ some .fuel → (r.1, r.2.1) = expectK k (semAll ops ⟨vals, err⟩) := by
+  intro r h
+  have := takeK_spec k fuel (build ops) (World.init vals err orc) h
+  rw [denote_build] at this
+  exact this
+
+/-- Iterated to exhaustion (`collect()`, `drain()`, a full `for` loop): all values of the
+    sequential meaning, then its ending. -/
+theorem C03_exhaust_eq_sem (ops : List Op) (vals : List Val) (err : Option Err) (orc : List Bool) :
+    ∃ F, ∀ fuel, F ≤ fuel → ∀ k, (semAll ops ⟨vals, err⟩).vals.length < k →
+      let r := takeK fuel k (build ops) (World.init vals err orc)
+      r.1 = (semAll ops ⟨vals, err⟩).vals ∧
+      r.2.1 = some (match (semAll ops ⟨vals, err⟩).err with
+        | Option.none => Resp.done
+        | some e => Resp.err e) := by
+  -- the run never looks at `k` beyond the point where it stops, so one budget serves all `k`
+  obtain ⟨F, hF⟩ := C03_pull_eq_sem ops vals err orc ((semAll ops ⟨vals, err⟩).vals.length + 1)
+  refine ⟨F, fun fuel hle k hk => ?_⟩
+  have h1 := hF fuel hle
+  simp only [expectK, Prod.mk.injEq] at h1
+  -- a run that stopped on a non-value answer within k₀ requests does the same for any k ≥ k₀
+  have stop_mono : ∀ (k₀ : Nat) (ss : List Stage) (w : World) (vs : List Val) (r : Resp),
+      (takeK fuel k₀ ss w).1 = vs → (takeK fuel k₀ ss w).2.1 = some r →
+      ∀ k, k₀ ≤ k → (takeK fuel k ss w).1 = vs ∧ (takeK fuel k ss w).2.1 = some r := by
+    intro k₀
+    induction k₀ with
+    | zero => intro ss w vs r _ h2; simp [takeK] at h2
+    | succ k₀ ih =>
+      intro ss w vs r h1 h2 k hk
+      obtain ⟨k', rfl⟩ : ∃ k', k = k' + 1 := ⟨k - 1, by omega⟩
+      rcases hn : next fuel ss w with ⟨r0, ss', w'⟩
+      simp only [takeK, hn] at h1 h2 ⊢
+      cases r0 with
+      | val v =>
+        simp only at h1 h2 ⊢
+        cases vs with
+        | nil => simp at h1
+        | cons v0 vs =>
+          simp only [List.cons.injEq] at h1
+          have := ih ss' w' vs r h1.2 h2 k' (by omega)
+          simp [this.1, this.2, h1.1]
+      | done => exact ⟨h1, h2⟩
+      | err e => exact ⟨h1, h2⟩
+      | fuel => exact ⟨h1, h2⟩
+  have h2 : ¬ ((semAll ops ⟨vals, err⟩).vals.length + 1 ≤ (semAll ops ⟨vals, err⟩).vals.length) := by omega
+  simp only [h2, if_false] at h1
+  have := stop_mono _ _ _ _ _ h1.1 h1.2 k (by omega)
+  simp only [List.take_of_length_le (Nat.le_succ _)] at this
+  exact this
+
+/-- Building a pipeline pulls nothing: the state built for any program over any source has pull
+    counter 0, the source untouched, and every stage in its initial state (nothing pending,
+    nothing fetched ahead, nothing received). -/
 theorem C03_lazy (ops : List Op) (vals : List Val) (err : Option Err) (orc : List Bool) :
     (World.init vals err orc).src.pulled = 0 ∧ (World.init vals err orc).src.rest = vals ∧
     ∀ g ∈ build ops, g.pend = [] ∧ g.inq = [] ∧ g.recv = 0 := by
